@@ -300,7 +300,9 @@ def _mutate_validate(ev):
     if ev.get("ev") != "Validate":
         return None
     ev = json.loads(json.dumps(ev))
-    if ev["strict"]:
+    if ev["strict"] and ev.get("typed") and ev["typed"][0]["kind"] != "fail" and len(ev["policy"]["conds"][0][1]) % 2 == 0:
+        ev["typed"][0]["typed"][1] = ["Long"]          # a wrong static type at the root of the typed AST
+    elif ev["strict"]:
         ev["classes"] = sorted(set(ev["classes"]) | {"noAttr"})
     else:
         ev["strict"] = True
@@ -310,9 +312,9 @@ def _mutate_validate(ev):
 
 
 C03 = dict(
-    family="validate", trace_module="Trace_Validate.tla",
+    family="validate", trace_module="Trace_Validate.tla", trace_env_by_tier=True,
     models=[dict(name="mc_validate", module="MC_Validate.tla", cfg=dict(quick="MC_Validate.cfg", thorough="MC_Validate.cfg"),
-                 cases=_validate_case, setup=_validate_setup, limit=dict(quick=1500, thorough=None))],
+                 cases=_validate_case, setup=_validate_setup, limit=dict(quick=900, thorough=None))],
     nontrivial=lambda ev: ev.get("ev") == "Validate",
     key=lambda ev: ev.get("policy"),
     mutate=_mutate_validate, chunk=150,
@@ -321,9 +323,10 @@ C03 = dict(
          "(&&, ||, !, if, nesting, both operand orders) x 5 scopes, plus 20 type probes x 5 scopes; each is validated strict and permissive and "
          "evaluated by the real evaluator on all 960 conformant environments (every optional component present/absent; environments are built through "
          "the library's own schema-based validation, which must accept all of them). TLC recomputes every outcome class and checks soundness, "
-         "impossible => never satisfied, strict => permissive, and acceptance of the must-accept fragment. quick replays a seeded sample of 1500 policies.",
+         "impossible => never satisfied, strict => permissive, acceptance of the must-accept fragment, and - from the typed AST the typechecker returns per request environment - that every "
+         "subexpression that is actually evaluated yields a value inhabiting its static type (singleton True/False types included). quick replays a seeded sample of 900 policies.",
     assumptions=["one schema (Sc2) and its 960-environment universe; soundness is established for the generated programs, not all programs",
-                 "static types of individual subexpressions (typed AST) are not yet compared node by node"],
+                 "typed ASTs are checked on a quarter of the universe in the quick tier, on all of it in the thorough tier"],
 )
 FAMILIES["C03"] = C03
 
